@@ -44,7 +44,9 @@ REQUIRED = {'quick': {'evaluations': 8000, 'path_queries_compared': 6000, 'bare_
                          'invariance_checks': 5000, 'corpus_messages': 100, 'sliced_queries': 60000}}
 
 SL = [None, 0, 1, 2, -1, -2, (None, None, None), (1, None, None), (None, None, 2), (None, None, -1), (0, 1, None),
-      (-2, None, None), (None, 1, None), (1, 3, None)]
+      (-2, None, None), (None, 1, None), (1, 3, None),
+      # mixed signs: a negative start is resolved against ALL matches, whatever the stop
+      (-2, 3, None), (-1, 1, None), (-3, 2, None), (-2, -1, None), (None, 0, None), (1, -1, None), (0, None, 2)]
 SELECTORS = [('@[0]', lambda n: [0]), ('@[-1]', lambda n: list(range(n))[-1:]), ('@[::2]', lambda n: list(range(n))[::2]),
              ('@[1:]', lambda n: list(range(n))[1:]), ('@[:1]', lambda n: list(range(n))[:1]),
              ('@[::-1]', lambda n: list(range(n))[::-1]), ('@[1]', lambda n: [1])]
